@@ -15,17 +15,21 @@ use whirlpool::state::{AdaptiveFeeConstants, AdaptiveFeeInfo, AdaptiveFeeVariabl
 use whirlpool::util::SwapTickSequence;
 
 const KF_SHL: &str = "sdk-token-math-ok-where-program-overflows";
+const KF_DIV: &str = "program-u256-division-panics-where-sdk-quotes";
 
 fn anchor_code(e: anchor_lang::error::Error) -> u64 {
     let pe: solana_program::program_error::ProgramError = e.into();
     pe.into()
 }
 
+/// pseudo error code: the program's swap panicked (message in LAST_PROGRAM_PANIC)
+pub const PROGRAM_PANICKED: u64 = u64::MAX - 7;
+thread_local! {
+    pub static LAST_PROGRAM_PANIC: std::cell::RefCell<String> = const { std::cell::RefCell::new(String::new()) };
+}
+
 fn quiet<R>(f: impl FnOnce() -> R + std::panic::UnwindSafe) -> Result<R, ()> {
-    crate::rt::quiet_panics(true);
-    let r = std::panic::catch_unwind(f).map_err(|_| ());
-    crate::rt::quiet_panics(false);
-    r
+    crate::rt::try_call(f).map_err(|_| ())
 }
 
 // ---------------------------------------------------------------------------------------------------
@@ -103,7 +107,7 @@ impl Sim {
     let ts = c.tick_spacing;
     let tsi = ts as i32;
     let n = 88 * tsi;
-    let t0 = c.start_tick.clamp(MIN_TICK + 4 * n.min(100_000), MAX_TICK - 4 * n.min(100_000)).clamp(MIN_TICK, MAX_TICK);
+    let t0 = c.start_tick.clamp(MIN_TICK, MAX_TICK);
     let price = ((pm::sqrt_price_from_tick_index(t0) as i128 + c.start_price_offset as i128).max(MIN_SQRT_PRICE as i128) as u128).min(MAX_SQRT_PRICE);
     let tick_current = pm::tick_index_from_sqrt_price(&price);
     let base = tick_current.div_euclid(n) * n;
@@ -120,7 +124,8 @@ impl Sim {
     let mut liquidity: u128 = 0;
     let unit0 = tick_current.div_euclid(tsi);
     for p in &c.positions {
-        let (lo, hi) = ((unit0 + p.lo as i32) * tsi, (unit0 + p.hi as i32) * tsi);
+        // (i16::MIN, i16::MAX) stands for the full range
+        let (lo, hi) = if (p.lo, p.hi) == (i16::MIN, i16::MAX) { (MIN_TICK / tsi * tsi, MAX_TICK / tsi * tsi) } else { ((unit0 + p.lo as i32) * tsi, (unit0 + p.hi as i32) * tsi) };
         if lo >= hi || lo < MIN_TICK || hi > MAX_TICK {
             continue;
         }
@@ -128,8 +133,9 @@ impl Sim {
             let s = a.borrow().start_tick_index;
             t >= s && t < s + n
         });
-        let (Some(ia), Some(ib)) = (find(lo), find(hi)) else { continue };
-        for (idx, t, sign) in [(ia, lo, 1i128), (ib, hi, -1i128)] {
+        // a bound outside the seven arrays cannot be reached by any swap of this simulation: its tick needs no storage
+        for (idx, t, sign) in [(find(lo), lo, 1i128), (find(hi), hi, -1i128)] {
+            let Some(idx) = idx else { continue };
             let mut a = arrays[idx].borrow_mut();
             let off = ((t - a.start_tick_index) / tsi) as usize;
             let mut tk: Tick = a.ticks[off];
@@ -217,7 +223,14 @@ impl Sim {
             let ta1 = if refs.len() > 1 { Some(refs.remove(1)) } else { None };
             let ta0 = refs.remove(0);
             let mut seq = SwapTickSequence::new(ta0, ta1, ta2);
-            swap(&self.wp, &mut seq, sw.amount, limit, sw.exact_in, sw.a_to_b, self.ts, &self.oracle).map_err(anchor_code)
+            // a panic aborts the transaction on-chain: the program refuses the swap
+            match crate::rt::try_call(|| swap(&self.wp, &mut seq, sw.amount, limit, sw.exact_in, sw.a_to_b, self.ts, &self.oracle).map_err(anchor_code)) {
+                Ok(r) => r,
+                Err(m) => {
+                    LAST_PROGRAM_PANIC.with(|p| *p.borrow_mut() = m);
+                    Err(PROGRAM_PANICKED)
+                }
+            }
         };
         (prog, whirlpool::verif_trace::take())
     }
@@ -339,7 +352,12 @@ pub fn check_sim(c: &SimCase, l: &mut Local) -> Result<(), String> {
             (Err(code), Ok(Ok(q))) => {
                 // allowed: partial exact-out fill, running off the supplied arrays
                 if *code != 6057 && *code != 6038 {
-                    return Err(format!("{what}: the program refuses with {code} but the SDK quotes (a {}, b {})", q.token_a, q.token_b));
+                    let why = if *code == PROGRAM_PANICKED { LAST_PROGRAM_PANIC.with(|p| p.borrow().clone()) } else { format!("{code}") };
+                    if *code == PROGRAM_PANICKED && why.contains("u256_math") && crate::driver::is_known("C20", KF_DIV) {
+                        l.known_hit(KF_DIV);
+                        break;
+                    }
+                    return Err(format!("{what}: the program refuses with {why} but the SDK quotes (a {}, b {})", q.token_a, q.token_b));
                 }
                 l.count(&format!("sdk_quotes_where_program_refuses/{code}"));
             }
@@ -365,8 +383,8 @@ pub fn check_sim(c: &SimCase, l: &mut Local) -> Result<(), String> {
 }
 
 fn sim_case() -> BoxedStrategy<SimCase> {
-    let pos = (-150i16..150, 1i16..120, prop_oneof![6 => (20u32..70).prop_map(|b| 1u128 << b), 2 => gen::bits_u128(100), 1 => gen::bits_u128(126)])
-        .prop_map(|(lo, w, liquidity)| SimPos { lo, hi: lo.saturating_add(w), liquidity });
+    let pos = (-150i16..150, 1i16..120, prop_oneof![6 => (20u32..70).prop_map(|b| 1u128 << b), 2 => gen::bits_u128(100), 1 => gen::bits_u128(126)], 0u8..8)
+        .prop_map(|(lo, w, liquidity, full)| if full == 0 { SimPos { lo: i16::MIN, hi: i16::MAX, liquidity } } else { SimPos { lo, hi: lo.saturating_add(w), liquidity } });
     let sw = (any::<bool>(), any::<bool>(), crate::history::swap_amount_strategy(), 0u8..4, any::<u32>(), prop_oneof![3 => 0u32..10, 3 => 0u32..700, 1 => 0u32..100_000], any::<u16>())
         .prop_map(|(a_to_b, exact_in, amount, limit_kind, limit_arg, dt, slippage_bps)| SimSwap { a_to_b, exact_in, amount, limit_kind, limit_arg, dt, slippage_bps });
     let adaptive = prop_oneof![
@@ -384,7 +402,7 @@ fn sim_case() -> BoxedStrategy<SimCase> {
     ];
     (
         prop_oneof![5 => prop::sample::select(vec![1u16, 8, 64, 128]), 1 => prop::sample::select(vec![32768u16, 32896])],
-        prop_oneof![5 => -50_000i32..50_000, 1 => gen::any_tick()],
+        prop_oneof![5 => -50_000i32..50_000, 1 => gen::any_tick(), 1 => (0i32..30_000, any::<bool>()).prop_map(|(d, up)| if up { MAX_TICK - d } else { MIN_TICK + d })],
         -1i8..=1,
         gen::fee_rate(60000).prop_map(|r| r as u16),
         0u16..=2500,
@@ -422,6 +440,17 @@ pub struct MathCase {
     pub upper: i32,
 }
 
+/// a program function called directly: a panic is a refusal with the pseudo code PROGRAM_PANICKED
+fn prog_call<T>(f: impl FnOnce() -> Result<T, u64>) -> Result<T, u64> {
+    match crate::rt::try_call(f) {
+        Ok(r) => r,
+        Err(m) => {
+            LAST_PROGRAM_PANIC.with(|p| *p.borrow_mut() = m);
+            Err(PROGRAM_PANICKED)
+        }
+    }
+}
+
 /// program error codes that mean "arithmetic overflow / amount out of range"
 fn is_overflow(code: u64) -> bool {
     matches!(code, 6017 | 6030 | 6031 | 6033 | 6007 | 6008 | 6039 | 6040 | 6006)
@@ -431,8 +460,8 @@ pub fn check_math(c: &MathCase, l: &mut Local) -> Result<(), String> {
     let conv = |r: Result<u64, whirlpool::errors::ErrorCode>| r.map_err(|e| e as u32 as u64 + 6000);
     // amount deltas
     for (name, prog, sdkr) in [
-        ("amount_delta_a", conv(pm::get_amount_delta_a(c.p0, c.p1, c.liquidity, c.flag)), quiet(|| sdk::try_get_amount_delta_a(c.p0, c.p1, c.liquidity, c.flag))),
-        ("amount_delta_b", conv(pm::get_amount_delta_b(c.p0, c.p1, c.liquidity, c.flag)), quiet(|| sdk::try_get_amount_delta_b(c.p0, c.p1, c.liquidity, c.flag))),
+        ("amount_delta_a", prog_call(|| conv(pm::get_amount_delta_a(c.p0, c.p1, c.liquidity, c.flag))), quiet(|| sdk::try_get_amount_delta_a(c.p0, c.p1, c.liquidity, c.flag))),
+        ("amount_delta_b", prog_call(|| conv(pm::get_amount_delta_b(c.p0, c.p1, c.liquidity, c.flag))), quiet(|| sdk::try_get_amount_delta_b(c.p0, c.p1, c.liquidity, c.flag))),
     ] {
         match (&prog, &sdkr) {
             (Ok(p), Ok(Ok(q))) if p == q => l.count(&format!("{name}/agree_ok")),
@@ -456,12 +485,12 @@ pub fn check_math(c: &MathCase, l: &mut Local) -> Result<(), String> {
     for (name, prog, sdkr) in [
         (
             "next_sqrt_price_from_a",
-            convp(pm::get_next_sqrt_price_from_a_round_up(c.p0, c.liquidity, c.amount, c.flag)),
+            prog_call(|| convp(pm::get_next_sqrt_price_from_a_round_up(c.p0, c.liquidity, c.amount, c.flag))),
             quiet(|| sdk::try_get_next_sqrt_price_from_a(c.p0, c.liquidity, c.amount, c.flag)),
         ),
         (
             "next_sqrt_price_from_b",
-            convp(pm::get_next_sqrt_price_from_b_round_down(c.p0, c.liquidity, c.amount, c.flag)),
+            prog_call(|| convp(pm::get_next_sqrt_price_from_b_round_down(c.p0, c.liquidity, c.amount, c.flag))),
             quiet(|| sdk::try_get_next_sqrt_price_from_b(c.p0, c.liquidity, c.amount, c.flag)),
         ),
     ] {
@@ -483,6 +512,13 @@ pub fn check_math(c: &MathCase, l: &mut Local) -> Result<(), String> {
                     } else {
                         return Err(format!("{name}(p={}, L={}, amount={}, input={}): the program rejects as overflowing ({code}) but the SDK returns Ok({q})", c.p0, c.liquidity, c.amount, c.flag));
                     }
+                } else if *code == PROGRAM_PANICKED {
+                    // the swap loop does call the helper with such arguments: the program aborts a swap the SDK quotes
+                    if crate::driver::is_known("C20", KF_DIV) {
+                        l.known_hit(KF_DIV);
+                    } else {
+                        return Err(format!("{name}(p={}, L={}, amount={}, input={}): the program panics ({}) but the SDK returns Ok({q})", c.p0, c.liquidity, c.amount, c.flag, LAST_PROGRAM_PANIC.with(|p| p.borrow().clone())));
+                    }
                 } else {
                     // other refusals (result outside the price bounds, exact-out larger than the reserves): the swap loop never
                     // calls these helpers with such arguments; tracked, not constrained by the property
@@ -499,7 +535,7 @@ pub fn check_math(c: &MathCase, l: &mut Local) -> Result<(), String> {
         pos.tick_upper_index = c.upper;
         let tick = pm::tick_index_from_sqrt_price(&c.p0);
         let delta = if c.flag { c.liquidity as i128 } else { -(c.liquidity as i128) };
-        let prog = whirlpool::manager::liquidity_manager::calculate_liquidity_token_deltas(tick, c.p0, &pos, delta).map_err(anchor_code);
+        let prog = prog_call(|| whirlpool::manager::liquidity_manager::calculate_liquidity_token_deltas(tick, c.p0, &pos, delta).map_err(anchor_code));
         let sdkr = quiet(|| sdk::try_get_token_estimates_from_liquidity(c.liquidity, c.p0, c.lower, c.upper, c.flag));
         match (&prog, &sdkr) {
             (Ok(p), Ok(Ok(q))) if p == q => l.count("liquidity_token_estimates/agree_ok"),
@@ -529,7 +565,7 @@ pub fn check_math(c: &MathCase, l: &mut Local) -> Result<(), String> {
 fn math_case() -> BoxedStrategy<MathCase> {
     // liquidity by magnitude, or (one in four) the exact inverse image of a token amount on a boundary of the u64 result type
     let target = prop_oneof![3 => Just(None), 1 => (any::<bool>(), 0usize..AMOUNT_TARGETS.len(), any::<u32>()).prop_map(Some)];
-    (gen::sqrt_price(), gen::bits_u128(128), gen::amount_u64(), any::<bool>(), gen::any_tick(), 1i32..5000, target)
+    (gen::sqrt_price(), gen::liquidity_u128(), gen::amount_u64(), any::<bool>(), gen::any_tick(), 1i32..5000, target)
         .prop_flat_map(|(p0, liquidity, amount, flag, lower, w, target)| (Just((p0, liquidity, amount, flag, lower, w, target)), gen::target_price(p0)))
         .prop_map(|((p0, liquidity, amount, flag, lower, w, target), p1)| {
             let liquidity = match target {
